@@ -411,10 +411,7 @@ func init() {
 			"the emitted code runs the real github.com/qiniu/x/xgo range iterator",
 		},
 		Prepare: func(tier string) error { _, err := prepareTV("C04"); return err },
-		Extra: func(tier string, ev map[string]any) []Violation {
-			ev["programs"] = 17
-			return nil
-		},
+
 		Harnesses: []harnessSpec{
 			{Name: "VxC04", ExtDir: tvDir("C04"), Quick: map[string]int{"R": 4, "S": 3, "KF_NEGSTEP": 0}, Thorough: map[string]int{"R": 8, "S": 4, "KF_NEGSTEP": 0},
 				Variants: c04Variants(), MaxSteps: 200_000},
@@ -431,7 +428,7 @@ func init() {
 			"'panics with that error (wrapped with its source frame)' is checked as errors.Is(panic value, callee error); errors.Is is the engine's model (identity, Is method, Unwrap chain)",
 		},
 		Prepare: func(tier string) error { _, err := prepareTV("C03"); return err },
-		Extra:   func(tier string, ev map[string]any) []Violation { ev["programs"] = 13; return nil },
+		Extra:   nil, // programs are counted from the emitted Go (tvCountPrograms) by the driver
 		Harnesses: []harnessSpec{
 			{Name: "VxC03", ExtDir: tvDir("C03"), Quick: map[string]int{}, Variants: func() []map[string]int {
 				var v []map[string]int
@@ -453,7 +450,7 @@ func init() {
 			"bound: |ints| <= R (decimal rendering forks on the digit count), strings of <= L bytes",
 		},
 		Prepare: func(tier string) error { _, err := prepareTV("C05"); return err },
-		Extra:   func(tier string, ev map[string]any) []Violation { ev["programs"] = 10; return nil },
+		Extra:   nil, // programs are counted from the emitted Go (tvCountPrograms) by the driver
 		Harnesses: []harnessSpec{
 			{Name: "VxC05", ExtDir: tvDir("C05"), Quick: map[string]int{"R": 1200, "L": 2}, Thorough: map[string]int{"R": 100000, "L": 3}, Variants: func() []map[string]int {
 				var v []map[string]int
@@ -482,7 +479,7 @@ func init() {
 			"bound: slices of at most L elements",
 		},
 		Prepare: func(tier string) error { _, err := prepareTV("C02"); return err },
-		Extra:   func(tier string, ev map[string]any) []Violation { ev["programs"] = 20; return nil },
+		Extra:   nil, // programs are counted from the emitted Go (tvCountPrograms) by the driver
 		Harnesses: []harnessSpec{
 			{Name: "VxC02", ExtDir: tvDir("C02"), Quick: map[string]int{"L": 2}, Thorough: map[string]int{"L": 3}, Variants: func() []map[string]int {
 				var v []map[string]int
@@ -504,7 +501,7 @@ func init() {
 			"the inputs dimension is small here: the content of the check is the family of candidate orders and declaration styles",
 		},
 		Prepare: func(tier string) error { _, err := prepareTV("C10"); return err },
-		Extra:   func(tier string, ev map[string]any) []Violation { ev["programs"] = 36; return nil },
+		Extra:   nil, // programs are counted from the emitted Go (tvCountPrograms) by the driver
 		Harnesses: []harnessSpec{
 			{Name: "VxC10", ExtDir: tvDir("C10"), Quick: map[string]int{}, Variants: []map[string]int{{"FAM": 0}, {"FAM": 1}, {"FAM": 2}, {"FAM": 3}, {"FAM": 4}}, MaxSteps: 500_000},
 		},
@@ -520,7 +517,7 @@ func init() {
 			"bound: |ints| <= 50, strings <= 2 bytes, slices <= 3 elements",
 		},
 		Prepare: func(tier string) error { _, err := prepareTV("C25"); return err },
-		Extra:   func(tier string, ev map[string]any) []Violation { ev["programs"] = 25; return nil },
+		Extra:   nil, // programs are counted from the emitted Go (tvCountPrograms) by the driver
 		Harnesses: []harnessSpec{
 			{Name: "VxC25", ExtDir: tvDir("C25"), Quick: map[string]int{}, Variants: func() []map[string]int {
 				var v []map[string]int
@@ -542,7 +539,7 @@ func init() {
 			"bound: |ints| <= 40, loop bounds <= 5, strings <= 2 bytes",
 		},
 		Prepare: func(tier string) error { _, err := prepareTV("C01"); return err },
-		Extra:   func(tier string, ev map[string]any) []Violation { ev["programs"] = 25; return nil },
+		Extra:   nil, // programs are counted from the emitted Go (tvCountPrograms) by the driver
 		Harnesses: []harnessSpec{
 			{Name: "VxC01", ExtDir: tvDir("C01"), Quick: map[string]int{"KF_INITORDER": 0}, Variants: func() []map[string]int {
 				var v []map[string]int
@@ -564,7 +561,7 @@ func init() {
 			"'exactly those fields and methods': unkeyed composite literal and interface satisfaction in the generated package (go/types at load time), not a reflective enumeration: extra methods would go unnoticed",
 		},
 		Prepare: func(tier string) error { _, err := prepareTV("C11"); return err },
-		Extra:   func(tier string, ev map[string]any) []Violation { ev["programs"] = 7; return nil },
+		Extra:   nil, // programs are counted from the emitted Go (tvCountPrograms) by the driver
 		Harnesses: []harnessSpec{
 			{Name: "VxC11", ExtDir: tvDir("C11"), Quick: map[string]int{}, Variants: []map[string]int{{"FN": 0}, {"FN": 1}, {"FN": 2}, {"FN": 3}, {"FN": 4}, {"FN": 5}}, MaxSteps: 500_000},
 		},
